@@ -44,7 +44,7 @@ class Probit(Contract):
 
     def ensures(self, a, r, p):
         L = logit_abs(a.alpha)
-        if p is None:   # callee view: one constant of proportionality, pinned to sqrt(pi/8) within 1e-12
+        if self.callee_view:   # callee view: one constant of proportionality, pinned to sqrt(pi/8) within 1e-12
             return [("scale", z3.And(r == CPROBIT * L, CPROBIT >= KLO, CPROBIT <= KHI)), ("nonneg", r >= 0)]
         return [("z==sqrt(pi/8)*|logit(alpha)| (within 1e-12 relative)", z3.And(KLO * L <= r, r <= KHI * L)),
                 ("nonneg", r >= 0)]
